@@ -246,6 +246,24 @@ def run_history(work):
                                          "zone": name, "history": hist[-6:], "got": list(r1), "fresh": list(r2),
                                          "repeat_of_failed_query": len(hist) > 1 and hist[-2] == t and r2[0] == "failed"})
                 break
+        # New Year under the interpreter's other windows (13 and 12 months start on Jan 1 of the year itself, so a local time
+        # on Jan 1 is looked up in the previous year's window): a query later in year y, then Jan 1 of y, on one instance
+        for vm in (13, 12):
+            zv = ZoneSpecifier(zi, viewing_months=vm)
+            for y in range(work["start_year"] + 1, work["until_year"] - 1):
+                for first, second in ((dt.datetime(y, 7, 1, 12, 0, 0), dt.datetime(y, 1, 1, 0, 30, 0)), (dt.datetime(y, 1, 1, 0, 30, 0), dt.datetime(y - 1, 12, 31, 23, 30, 0))):
+                    ask_local(zv, first)
+                    r1 = ask_local(zv, second)
+                    r2 = ask_local(ZoneSpecifier(zi, viewing_months=vm), second)
+                    c["new_year_pairs"] = c.get("new_year_pairs", 0) + 1
+                    if r1 != r2:
+                        out["witnesses"].append({"key": "c08:python-answer-depends-on-history", "what": "ZoneSpecifier local-time answer differs from a fresh instance",
+                                                 "zone": name, "viewing_months": vm, "first_query": first.isoformat(), "query": second.isoformat(),
+                                                 "got": list(r1), "fresh": list(r2)})
+                        break
+                else:
+                    continue
+                break
         c["zones"] = c.get("zones", 0) + 1
     return out
 
